@@ -68,7 +68,12 @@ int main(int argc, char** argv) {
     }
     // user-supplied grids
     std::vector<std::vector<double>> user;
-    { std::vector<double> g1(nx), g2(nx), g3(nx); for (unsigned i = 0; i < nx; i++) { g1[i] = i * i * 0.37 - 2.0; g2[i] = std::pow(1.7, (double)i) * 1e-2; g3[i] = (i == 0 ? -5.0 : (i + 1 == nx ? 100.0 : 1.0 + 1e-3 * i)); } user = {g1, g2, g3}; }
+    { std::vector<double> g1(nx), g2(nx), g3(nx); for (unsigned i = 0; i < nx; i++) { g1[i] = i * i * 0.37 - 2.0; g2[i] = std::pow(1.7, (double)i) * 1e-2; g3[i] = (i == 0 ? -5.0 : (i + 1 == nx ? 100.0 : 1.0 + 1e-3 * i)); } user = {g1, g2, g3};
+      // grids whose first and last intervals have the same width while the interior is not uniform (centre-refined, with a gap)
+      if (nx >= 5) { std::vector<double> g4(nx), g5(nx); unsigned mid = nx / 2;
+        double xx = 0; for (unsigned i = 0; i < nx; i++) { g4[i] = xx; bool edge = (i == 0 || i + 2 >= nx); xx += edge ? 1.0 : ((i + 1 >= mid - 1 && i + 1 <= mid + 1) ? 0.125 : 0.5); }
+        xx = -3; for (unsigned i = 0; i < nx; i++) { g5[i] = xx; xx += (i + 1 == mid) ? 8.0 : 1.0; }
+        user.push_back(g4); user.push_back(g5); } }
     for (auto& g : user) {
       S s(nx); count("evaluations"); distinct(hashvec(g, nx * 7));
       std::string ctx = "{\"nx\":" + std::to_string(nx) + ",\"scale\":\"user\",\"nodes\":" + jarr(g) + "}";
